@@ -1066,3 +1066,84 @@ func receivedResultIsExamined(c *kit.Ctx) {
 		c.Unk(wfc, "received-result-examined", wfc.Pos(), "waitForCompletion no longer stores received results")
 	}
 }
+
+// connectionClosedWhicheverComesFirst: Close/fail and Dial can run in either order. fail() reads the connection
+// under the mutex Dial writes it under and closes it if it is there; Dial, after it has published the
+// connection, looks at the done channel and closes the connection itself if the client has failed meanwhile.
+// Without the second half a client closed while it was connecting keeps a socket open that nobody will close. C19.R1, C03.R1.
+func connectionClosedWhicheverComesFirst(c *kit.Ctx) {
+	p := c.P
+	fail, dial := c.Anchor("region", "client", "fail"), c.Anchor("region", "client", "Dial")
+	connF, connM, doneF := p.Field("region", "client", "conn"), p.Field("region", "client", "connM"), p.Field("region", "client", "done")
+	if fail == nil || dial == nil || connF == nil || connM == nil || doneF == nil {
+		return
+	}
+	env := kit.NewLockEnv(p)
+	// (i)
+	n := 0
+	for _, fn := range kit.WithAnon(fail) {
+		kit.Instrs(fn, func(in ssa.Instruction) {
+			ld, ok := in.(*ssa.UnOp)
+			if !ok || !isLoadOfField(ld, connF) {
+				return
+			}
+			n++
+			c.Check(env.At(ld).HoldsField(connM, false), fn, "conn-read-under-its-mutex", ld.Pos(), "fail reads c.conn with connM held", "fail reads c.conn without the mutex Dial writes it under: a Close that races with Dial may not see the connection (and it is a data race)")
+		})
+	}
+	if n == 0 {
+		c.Unk(fail, "conn-read-under-its-mutex", fail.Pos(), "fail no longer looks at c.conn")
+	}
+	// (ii)
+	m := 0
+	for _, fn := range kit.WithAnon(dial) {
+		kit.Instrs(fn, func(in ssa.Instruction) {
+			st, ok := in.(*ssa.Store)
+			if !ok {
+				return
+			}
+			fa, ok := st.Addr.(*ssa.FieldAddr)
+			if !ok || kit.FieldVar(fa.X.Type(), fa.Field) != connF {
+				return
+			}
+			m++
+			e := kit.PathFrom(st, kit.PathQuery{
+				Stop: func(x ssa.Instruction) bool {
+					sel, ok := x.(*ssa.Select)
+					if !ok {
+						return false
+					}
+					for _, s := range sel.States {
+						if s.Dir == types.RecvOnly && isLoadOfField(s.Chan, doneF) {
+							return true
+						}
+					}
+					return false
+				},
+				Target: func(x ssa.Instruction) bool {
+					if g, ok := x.(*ssa.Go); ok && strings.HasSuffix(kit.CalleeName(g), "receiveRPCs") {
+						return true
+					}
+					_, isRet := x.(*ssa.Return)
+					return isRet
+				},
+			})
+			closes := false
+			kit.Instrs(fn, func(x ssa.Instruction) {
+				call, ok := x.(ssa.CallInstruction)
+				if !ok || kit.CalleeName(call) != "(net.Conn).Close" {
+					return
+				}
+				for _, s := range selectArmsAt(x.Block()) {
+					if s.Dir == types.RecvOnly && isLoadOfField(s.Chan, doneF) {
+						closes = true
+					}
+				}
+			})
+			c.Check(e == nil && closes, fn, "dial-rechecks-done", st.Pos(), "after publishing the connection Dial looks at c.done and closes the connection in that arm", "Dial does not look at c.done after it has stored the connection (or does not close the connection there): a client that was closed while Dial was still connecting - fail() saw no connection yet - keeps the socket open for ever")
+		})
+	}
+	if m == 0 {
+		c.Unk(dial, "dial-rechecks-done", dial.Pos(), "Dial no longer stores the connection in c.conn")
+	}
+}
